@@ -1243,6 +1243,12 @@ enum COp {
     RecvClearRtcp(u8),
     TkSendRtp(u8),
     TkSyncBye,
+    /// install the rewrite bridge towards the keyed / the unkeyed target, remove it
+    BridgeKeyed,
+    BridgeUnkeyed,
+    ClearBridge,
+    /// what PeerConnection::close does to its transport: clear_listeners() then the BYE
+    Close,
 }
 
 struct CScenario {
@@ -1273,6 +1279,12 @@ fn c_scenarios() -> Vec<CScenario> {
         CScenario { name: "send_rtcp|recv_rtp|bye", pre_keys: 1, bridge_keyed: false, threads: vec![vec![SendRtcp(0)], vec![RecvProtRtp(1)], vec![SyncBye]] },
         CScenario { name: "install|recv_clear|send_rtcp", pre_keys: 0, bridge_keyed: false, threads: vec![vec![Install(1)], vec![RecvClearRtp(0)], vec![SendRtcp(1)]] },
         CScenario { name: "bridge:relay|target-bye", pre_keys: 1, bridge_keyed: true, threads: vec![vec![RecvProtRtp(0)], vec![TkSyncBye]] },
+        CScenario { name: "bridge:install-unkeyed|relay", pre_keys: 1, bridge_keyed: false, threads: vec![vec![BridgeUnkeyed], vec![RecvProtRtp(0)]] },
+        CScenario { name: "bridge:install-keyed|relay+relay", pre_keys: 1, bridge_keyed: false, threads: vec![vec![BridgeKeyed], vec![RecvProtRtp(0), RecvProtRtp(1)]] },
+        CScenario { name: "bridge:swap-to-unkeyed|relay", pre_keys: 1, bridge_keyed: true, threads: vec![vec![BridgeUnkeyed], vec![RecvProtRtp(0)]] },
+        CScenario { name: "bridge:clear|relay|target-bye", pre_keys: 1, bridge_keyed: true, threads: vec![vec![ClearBridge], vec![RecvProtRtp(0)], vec![TkSyncBye]] },
+        CScenario { name: "close|recv_rtp", pre_keys: 1, bridge_keyed: false, threads: vec![vec![Close], vec![RecvProtRtp(0)]] },
+        CScenario { name: "close|send_rtp|recv_clear", pre_keys: 1, bridge_keyed: false, threads: vec![vec![Close], vec![SendRtp(0)], vec![RecvClearRtp(1)]] },
         CScenario { name: "bridge:relay|target-send|target-bye", pre_keys: 1, bridge_keyed: true, threads: vec![vec![RecvProtRtp(0)], vec![TkSendRtp(1)], vec![TkSyncBye]] },
     ]
 }
@@ -1371,6 +1383,23 @@ fn c_run(profile: SrtpProfile, sc: &CScenario, prefix: &[usize], t: &mut CTally)
                         if poll_once(a.send_rtcp(&[rr])).is_err() {
                             refused.fetch_add(1, Ordering::Relaxed);
                         }
+                    }));
+                }
+                COp::BridgeKeyed | COp::BridgeUnkeyed => {
+                    let dst = if *op == COp::BridgeKeyed { sys.tk.tr.clone() } else { sys.tu.tr.clone() };
+                    calls.push(Box::new(move || {
+                        let params = RtpRewriteBridgeParams { fixed_out_ssrc: Some(SSRC_BRIDGE), initial_sequence_number: Some(4000), initial_timestamp_offset: Some(0), ..Default::default() };
+                        a.bridge_rewrite_to(dst, params);
+                    }));
+                }
+                COp::ClearBridge => {
+                    calls.push(Box::new(move || a.clear_bridge_rewrite()));
+                }
+                COp::Close => {
+                    calls.push(Box::new(move || {
+                        a.clear_listeners();
+                        let bye = RtcpPacket::Goodbye(Goodbye { sources: vec![SSRC_OUT], reason: Some("PeerConnection closed".to_string()) });
+                        a.send_rtcp_sync(&[bye]);
                     }));
                 }
                 COp::SyncBye | COp::TkSyncBye => {
